@@ -2,7 +2,7 @@
 
 Decided statically: the SHAPE of the durability protocol on every path — log-before-apply, fsync per policy,
 temp+flush+fsync+rename+dirsync, publish-before-prune, list-before-use, start-up decision, no swallowed
-protocol error, the snapshot claims only sequence numbers already handed out, the configured fsync policy is the one that runs.  These are necessary conditions of the behaviour (breaking one breaks crash safety); the check
+protocol error, the snapshot claims only sequence numbers already handed out, the configured fsync policy is the one that runs, under the periodic policy a ticker and the rotation sync what the appends left unsynced.  These are necessary conditions of the behaviour (breaking one breaks crash safety); the check
 decides these parts, not the behaviour: what a given crash state contains, torn-write handling and replay
 arithmetic are not decided.
 """
@@ -19,7 +19,7 @@ MANIFEST = {
     'text': 'Decides the structural clauses of the durability protocol on every CFG path of the write, snapshot, '
             'rotation and start-up code (log-before-apply, fsync-per-policy, atomic replace, publish-before-prune, '
             'list-before-use, start-up decision, no swallowed protocol error, sequence accounting of what a snapshot claims to cover, '
-            'configured fsync policy → engine policy). Each clause is a necessary condition '
+            'configured fsync policy → engine policy, periodic policy: background tick and rotation sync the log). Each clause is a necessary condition '
             'of crash safety; the check decides the clause, not the behaviour (crash-state contents, torn writes and '
             'replay arithmetic are not decided).',
     'design_ref': 'DESIGN.md §4.1',
@@ -109,6 +109,94 @@ def drop_unsound_threading(body):
             x = ps[0]
         if not ok:
             del red[cur]
+
+
+def _excludes_periodic(pred):
+    """An edge predicate of a switch on an fsync policy that the Periodic policy cannot take."""
+    m_ = re.match(r'^variant\(.*fsync_policy\) = (\w+)$', pred)
+    if m_:
+        return m_.group(1) != 'Periodic'
+    m_ = re.match(r'^variant\(.*fsync_policy\) ∉ \{(.*)\}$', pred)
+    if m_:
+        return 'Periodic' in m_.group(1).split(',')
+    return False
+
+
+def _non_periodic_edges(body):
+    out = set()
+    o = flow.Origin(body)
+    for i, blk in enumerate(body.blocks):
+        if blk['t']['k'] == 'switch' and i in body.live_blocks():
+            for tg, p in flow.switch_edge_predicates(body, i, o):
+                if _excludes_periodic(p):
+                    out.add((i, tg))
+    return out
+
+
+def periodic_sync(ctx, prog, eff, rid):
+    """C01.R14 (F19): see the rule text."""
+    # (a) rotation
+    rw = ctx.body(rid, 'PersistenceState::rotate_wal_if_needed')
+    if rw is not None:
+        util.bind_role(rw, 'wal_guard', type_rx=r'^&mut .*WalWriter$')
+        wg = rw.var_local('wal_guard')
+        sw = set(util.assign_blocks(rw, local=wg[0] if wg else -1, deref_only=True))
+        ov = flow.Origin(rw, stop_at_vars=True)
+        for c in rw.calls:
+            if c.callee and re.search(r'core::mem::(replace|swap|take)$', c.callee) and c.args and 'wal_guard' in flow.render(ov.of_operand(c.args[0])):
+                sw.add(c.bb)
+        syncs = [bb for bb in eff.blocks(rw, 'file_sync')
+                 if rw.call_at(bb) is not None and rw.call_at(bb).args and 'wal_guard' in flow.render(ov.of_operand(rw.call_at(bb).args[0]))]
+        S = set(eff.success_edges(rw, syncs))
+        tv = flow.ThreadedView(rw)
+        r = tv.reach([0], avoid_edges=S | _non_periodic_edges(rw))
+        bad = sorted(sw & r)
+        if not sw:
+            ctx.missing(rid, 'rotate_wal_if_needed: the switch of the active writer')
+        else:
+            ctx.inst(rid, rw.short, 'Periodic ⇒ the outgoing segment is synced before the writer is replaced', not bad,
+                     ('the writer switch at %s is reachable under the Periodic policy without a successful sync of the outgoing writer (%s): the tail of the old '
+                      'segment is never synced again' % (rw.loc_of(bad[0]), 'no file sync of *wal_guard in the function' if not syncs else
+                                                         'sync at %s is not on every such path' % rw.loc_of(syncs[0]))) if bad else
+                     '%d switch site(s) behind the success edge of the sync at %s' % (len(sw), ', '.join(rw.loc_of(b_) for b_ in syncs)))
+    # (b) tickers
+    for owner in ('kyrodb_server::main', 'TieredEngine::spawn_flush_task'):
+        ob = ctx.body(rid, owner)
+        if ob is None:
+            continue
+        tickers, good, why = [], [], []
+        for b in prog.family(ob):
+            ticks = [c.bb for c in b.calls if c.callee and c.is_('re:tokio::time::interval::Interval::tick$')]
+            ticks = [t for t in ticks if t in b.reach(b.succ(t))]          # in a loop
+            if not ticks:
+                continue
+            tickers.append(b)
+            sy = set(c.bb for c in b.calls if c.callee and c.is_('HnswBackend::sync_wal'))
+            if not sy:
+                continue
+            tv = flow.ThreadedView(b)
+            npe = _non_periodic_edges(b)
+            free = [t for t in ticks if t in tv.reach(tv.succ(t), avoid_blocks=sy, avoid_edges=npe)]
+            if free:
+                why.append('%s: the tick at %s is reached again under the Periodic policy without passing sync_wal' % (b.short, b.loc_of(free[0])))
+            else:
+                good.append(b)
+        if not tickers:
+            ctx.missing(rid, '%s: a loop around Interval::tick' % owner)
+            continue
+        ctx.inst(rid, owner, 'Periodic ⇒ a background tick syncs the log', bool(good),
+                 ('%d ticker loop(s) in %s, none calls HnswBackend::sync_wal on every round the Periodic policy can take%s: appends acknowledged just before an idle '
+                  'period are never synced' % (len(tickers), owner, (' (' + '; '.join(why) + ')') if why else '')) if not good else
+                 'ticker %s: every way back to the tick under Periodic passes sync_wal' % good[0].short)
+    # (c) sync_wal itself
+    sb = ctx.body(rid, 'HnswBackend::sync_wal')
+    if sb is not None:
+        S = set(eff.success_edges(sb, eff.blocks(sb, 'file_sync')))
+        N = set(util.option_edges(sb, r'HnswBackend\.persistence$', 'None'))
+        oks = flow.ok_return_reachable(sb, [0], avoid_edges=S | N)
+        ctx.inst(rid, sb.short, 'Ok only past a successful file sync of the log (or persistence off)', bool(S) and not oks,
+                 'no file sync in sync_wal' if not S else 'an Ok return is reachable without the sync' if oks else 'every Ok return is behind the sync or the None edge of persistence')
+    ctx.floor(rid, 'periodic-sync obligations (rotation, two tickers, sync_wal)', sum(1 for x in ctx.instances if x.get('config') == ctx.config and x['rule'] == rid), 4, 'counted')
 
 
 def policy_mapping(ctx, prog, rid):
@@ -708,4 +796,11 @@ def run(ctx, prog):
                         'only engine policy built is FsyncPolicy::Always, unconditionally; on the edge `data_only` the only one is FsyncPolicy::Periodic carrying the '
                         'configured wal_flush_interval_ms')
     policy_mapping(ctx, prog, 'C01.R13')
+    # ------------------------------------------------------------------ R14 periodic policy: somebody syncs what the appends left unsynced
+    ctx.rule('C01.R14', 'periodic-fsync clause (F19): under FsyncPolicy::Periodic an append syncs only when the previous sync is an interval old (R2), so (a) '
+                        'rotate_wal_if_needed reaches the switch of the active writer, on every path the Periodic policy can take, only across the success edge of a '
+                        'file sync of the outgoing writer; (b) a background ticker (a loop around tokio Interval::tick) in the server\'s main and in '
+                        'TieredEngine::spawn_flush_task cannot come back to its tick under the Periodic policy without calling HnswBackend::sync_wal; (c) sync_wal '
+                        'returns Ok only past a successful file sync of the log unless persistence is off. Not decided: that the ticker\'s period is the configured interval')
+    periodic_sync(ctx, prog, eff, 'C01.R14')
     ctx.stat('functions_analysed', len(set(i['key'].split(' | ')[1] for i in ctx.instances)))
